@@ -2,6 +2,7 @@ package scen
 
 import (
 	"bytes"
+	stdtls "crypto/tls"
 	"fmt"
 	"strings"
 
@@ -124,10 +125,20 @@ func runC11(c *Ctx) {
 	}
 	length := []int{0, 1, 16, 32, 33, 255, 1000}[ch.Pick(7, "ekm-len")]
 	removeSNI := ch.Bool(10, "remove-sni")
+	// server-name shapes: the name reported by both sides must be the SNI actually sent
+	snShape := []string{"example.test", "example.test", "example.test", "example.test.", "192.0.2.9", "[2001:db8::9]", "www.example.test"}[ch.Pick(7, "sn-shape")]
+	// explicit BuildHandshakeState, then SetSNI, then Handshake
+	lateSNI := ch.Bool(15, "late-sni")
+	clientAuth := ch.Pick(4, "client-auth") // 0,1: none; 2: request; 3: request + verify if given
+	noReneg := ch.Bool(50, "no-reneg")      // switch the parrot's renegotiation support off so that exporters are available
 	w := c.NewWorld(simrt.Config{})
 	cache := tls.NewLRUClientSessionCache(8)
 	mk := func() *tls.Config {
 		cfg := negCfg()
+		cfg.ServerName = snShape
+		if snShape != "example.test" && snShape != "www.example.test" {
+			cfg.InsecureSkipVerify = true
+		}
 		if history {
 			cfg.ClientSessionCache = cache
 		}
@@ -149,18 +160,46 @@ func runC11(c *Ctx) {
 	of := OfferOf(dry, specMin)
 	plan := DrawPlan(ch, of, "")
 	scfg, stdcfg := ServerConfigs(plan)
+	if clientAuth >= 2 {
+		scfg.ClientAuth = tls.RequestClientCert
+		stdcfg.ClientAuth = stdtls.RequestClientCert
+		if clientAuth == 3 {
+			scfg.ClientAuth = tls.VerifyClientCertIfGiven
+			stdcfg.ClientAuth = stdtls.VerifyClientCertIfGiven
+		}
+	}
 	nconn := 1
 	if history {
 		nconn = 2
 	}
-	c.R.Class = fmt.Sprintf("%s/%s %s hist=%v rmsni=%v ekm=%q/%d/%d", f.Kind, f.IDI.Name, plan, history, removeSNI, label, len(ctx), length)
+	c.R.Class = fmt.Sprintf("%s/%s %s hist=%v rmsni=%v sn=%s late=%v cauth=%d noreneg=%v ekm=%q/%d/%d", f.Kind, f.IDI.Name, plan, history, removeSNI, snShape, lateSNI, clientAuth, noReneg, label, len(ctx), length)
 	for i := 0; i < nconn; i++ {
 		spec := f.Spec()
 		var cEKM []byte
 		var cEKMErr error
 		sp := &ConnSpec{Name: fmt.Sprintf("c%d", i), ID: f.IDI.ID, Spec: spec, CCfg: mk(), Peer: plan.Peer, SCfg: scfg, StdCfg: stdcfg, Payload: [][]byte{[]byte("ping")}}
-		if removeSNI {
-			sp.Prep = func(u *tls.UConn) error { return u.RemoveSNIExtension() }
+		sp.Prep = func(u *tls.UConn) error {
+			if removeSNI {
+				if err := u.RemoveSNIExtension(); err != nil {
+					return err
+				}
+			}
+			if lateSNI || noReneg {
+				if err := u.BuildHandshakeState(); err != nil {
+					return err
+				}
+			}
+			if noReneg {
+				for _, e := range u.Extensions {
+					if r, ok := e.(*tls.RenegotiationInfoExtension); ok {
+						r.Renegotiation = tls.RenegotiateNever
+					}
+				}
+			}
+			if lateSNI {
+				u.SetSNI("www.example.test")
+			}
+			return nil
 		}
 		sp.After = func(u *tls.UConn) {
 			st := u.ConnectionState()
